@@ -567,7 +567,9 @@ func normalizePath(dst, src []byte) []byte {
 	if n >= 0 && n+len(bytestr.StrSlashDotDot) == len(b) {
 		nn := bytes.LastIndexByte(b[:n], '/')
 		if nn < 0 {
-			return bytestr.StrSlash
+			// never hand out the shared bytestr.StrSlash: callers keep the result as their own
+			// reusable buffer (URI.path, Cookie.path) and append to it later
+			return append(dst[:0], bytestr.StrSlash...)
 		}
 		b = b[:nn+1]
 	}
